@@ -76,6 +76,26 @@ class Effects:
             t = bl["term"]
             if t["k"] == "assert":
                 e["panics"].append(("assert:" + t["msg"], bi))
+        # p.write(v) / ptr::write(p, v) with p = &raw mut <place> (addr_of_mut!) computed in this body: a store to <place>
+        tmp_places = {}
+        for bl in b.blocks:
+            for st in bl["stmts"]:
+                if st["k"] == "assign" and not st["place"]["p"] and st["rv"]["k"] in ("rawptr", "ref") and st["rv"].get("mut"):
+                    tmp_places[st["place"]["l"]] = st["rv"]["place"]
+        for c in self.cg.calls.get(b.path, []):
+            if c.external and norm(c.resolved or c.nominal) in ("std::ptr::write", "std::ptr::mut_ptr::<impl *mut T>::write",
+                                                                "std::ptr::write_unaligned", "std::ptr::mut_ptr::<impl *mut T>::write_unaligned"):
+                a0 = c.term["args"][0] if c.term.get("args") else None
+                if a0 and a0.get("k") in ("move", "copy") and not a0["place"]["p"] and a0["place"]["l"] in tmp_places:
+                    pl = tmp_places[a0["place"]["l"]]
+                    for fe in place_fields(pl):
+                        if fe.get("of") == r.cache:
+                            e["w_cache"].append((fe["n"], c.bb, None, has_deref(pl)))
+                            break
+                    for fe in place_fields(pl):
+                        if fe.get("of") == r.entry:
+                            e["w_entry"].append((fe["n"], c.bb, None, has_deref(pl)))
+                            break
         for c in self.cg.calls.get(b.path, []):
             if c.user_kind:
                 e["user"].append(c)
